@@ -737,3 +737,31 @@ def t_market_create():
     obl.append({"name": QM + "[create]/cover:paths", "pc": [], "goal": z3.BoolVal(n >= 2), "kind": "cover"})
     info = {"function": QM + " (creation of each market of a group)", "source_sha": get_src().source_hash(QM), "where": get_src().where(QM), "paths": n, "assumptions": sorted(ex.used_assumptions)}
     return {"obligations": obl, "info": [info]}
+
+
+# ----------------------------------------------------------------------------- _update_markets: the batches collected from the normal agents are the ones handled (C09, C11)
+@task("SequentialRunner._update_markets", props=["C09", "C11", "C04"], functions=["SequentialRunner._update_markets"], replay="whole_run")
+def t_update_markets():
+    """one collection of normal-agent batches per step, handed unchanged (same list object, same session) to _handle_orders"""
+    from pyvc.spec import Executor
+    ex = Executor(current="SequentialRunner._update_markets")
+    ex.specs[("m", "SequentialRunner", "_collect_orders_from_normal_agents")] = emit("Collect", result=("list", ("list", ("ref", "Order"))))
+    ex.specs[("m", "SequentialRunner", "_handle_orders")] = emit("Handle", result=("list", ("list", ("ref", "Order"))))
+    st = State(); st.labels = ["SequentialRunner._update_markets"]
+    runner = sym_obj("SequentialRunner", "runner"); session = sym_obj("Session", "session")
+    st.assume_alloc(runner); st.assume_alloc(session)
+    outs = ex.call_method(runner, "_update_markets", [], {"session": session}, st, 0, None)
+    n = 0
+    for s1, res in outs:
+        n += 1
+        tr = s1.trace
+        if [t[0] for t in tr] != ["Collect", "Handle"]:
+            s1.oblige(f"trace:one collection followed by one handling (got {[t[0] for t in tr]})", z3.BoolVal(False), "trace"); continue
+        col, han = tr
+        s1.oblige("trace:C09 the batches handled are the batches just collected, for the same session",
+                  z3.And(col[2][0] == runner.term, col[2][1] == session.term, han[2][0] == runner.term, han[2][1] == session.term, han[2][2] == col[2][-1]) if len(han[2]) >= 3 else z3.BoolVal(False), "trace")
+    for s_, k_, v_ in ex.escaped:
+        s_.oblige(f"no-raise:{v_[0]}@{v_[1]}", z3.BoolVal(False), "no-raise")
+    st.obl.append({"name": "SequentialRunner._update_markets/cover:paths", "pc": [], "goal": z3.BoolVal(n >= 1), "kind": "cover"})
+    src = get_src()
+    return {"obligations": st.obl, "info": [{"function": "SequentialRunner._update_markets", "source_sha": src.source_hash("SequentialRunner._update_markets"), "where": src.where("SequentialRunner._update_markets"), "paths": n, "assumptions": []}]}
